@@ -909,9 +909,20 @@ func (ip *Interp) exec(fr *Frame, ins ssa.Instruction) {
 	case *ssa.IndexAddr:
 		fr.locals[x] = ip.indexAddr(fr, x)
 	case *ssa.Index:
-		a := ip.get(fr, x.X).(Agg)
-		i := ip.indexCheck(ip.get(fr, x.Index).(*Term), len(a.elems))
-		fr.locals[x] = a.elems[i]
+		switch a := ip.get(fr, x.X).(type) {
+		case Agg:
+			i := ip.indexCheck(ip.get(fr, x.Index).(*Term), len(a.elems))
+			fr.locals[x] = a.elems[i]
+		case *Str:
+			i := ip.indexCheck(ip.get(fr, x.Index).(*Term), a.Len())
+			if a.sym {
+				fr.locals[x] = a.b[i]
+			} else {
+				fr.locals[x] = ip.tb.BVConst(uint64(a.s[i]), 8)
+			}
+		default:
+			ip.unsupported(fmt.Sprintf("Index on %T", a))
+		}
 	case *ssa.Lookup:
 		fr.locals[x] = ip.lookup(fr, x)
 	case *ssa.Slice:
